@@ -29,6 +29,7 @@ class Context:
         self.t0 = time.time()
         self.obligations: List[Dict[str, Any]] = []
         self.violations: List[Dict[str, Any]] = []
+        self.deferred_errors: List[str] = []
         self.notes: List[str] = []
         self.samples: List[Any] = []
         self.counters: Dict[str, int] = {}
@@ -92,8 +93,29 @@ class Context:
                 "an anchor was renamed or restructured beyond what the rule recognises"
             )
 
+    def isolate(self, fn, *args, **kwargs) -> None:
+        """Run one rule; an analysis error inside it must not hide what the other rules of the property find.
+
+        The error is kept and re-raised by finish() unless some rule reported a violation (a restructured anchor
+        and a violation usually have the same cause, and the violation is the more useful report)."""
+        try:
+            fn(self, *args, **kwargs)
+        except AnalysisError as exc:
+            self.deferred_errors.append(str(exc))
+        except (IndexError, KeyError, AttributeError, TypeError, ValueError) as exc:
+            import traceback
+            tb = traceback.extract_tb(exc.__traceback__)[-1]
+            self.deferred_errors.append(f"{getattr(fn, '__name__', fn)}: internal {type(exc).__name__}: {exc} "
+                                        f"({os.path.basename(tb.filename)}:{tb.lineno})")
+
     # -- finishing -------------------------------------------------------------
     def finish(self, explanation: str, assumptions: List[str]) -> int:
+        if self.deferred_errors:
+            known_now = {k["key"] for k in load_known() if k.get("property") == self.prop}
+            if not any(v["key"] not in known_now for v in self.violations):
+                raise AnalysisError(self.deferred_errors[0])
+            for e in self.deferred_errors:
+                self.note(f"analysis error in one rule, superseded by the reported violation(s): {e}")
         known = [k for k in load_known() if k.get("property") == self.prop]
         known_keys = {k["key"]: k for k in known}
         new: List[Dict[str, Any]] = []
